@@ -167,6 +167,7 @@ func (w *World) Track(c io.Closer)                            { w.FS.Track(c) }
 func (w *World) Stdio(fd int, b []byte) bool                  { return w.FS.Stdio(fd, b) }
 func (w *World) Exit(code int)                                { w.FS.Exit(code) }
 func (w *World) Finalizer(site string)                        { w.FS.Finalizer(site) }
+func (w *World) Durable() bool                                { return true }
 
 func (w *World) Yield(tag string) bool {
 	if w.FS.Sched == nil {
